@@ -85,6 +85,8 @@ def gen_case(seed, tier):
             op = {'op': 'advance', 'dt': rng.choice((0, 0.5, 1, 1, 2, 2.5, 3, 5, 100, 301))}
         if op.get('op') in ('in',):
             op['version'] = None
+        if op.get('version') is not None and rng.random() < 0.3:
+            op['pos'] = True
         prog.append(op)
     return {'seed': seed, 'cfg': {'params': params}, 'prog': prog}
 
@@ -147,16 +149,19 @@ def step(cache, m, op, now, DEFAULT):
     to = op.get('timeout', 'DEFAULT')
     rto = DEFAULT if to == 'DEFAULT' else to
     kw = {}
-    if ver is not None:
+    pa = ()
+    if ver is not None and op.get('pos'):
+        pa = (ver,)      # BaseCache's signatures take the version as the next positional argument; Django's own a* wrappers do so
+    elif ver is not None:
         kw['version'] = ver
     if name == 'set':
         v = vals.dec(op['v'])
-        got = _norm(lambda: cache.set(op['k'], v, rto, **kw))
+        got = _norm(lambda: cache.set(op['k'], v, rto, *pa, **kw))
         m.store(m.fk(op['k'], ver), fp(v), to, now)
         return got, ('ok', None), True
     if name == 'add':
         v = vals.dec(op['v'])
-        got = _norm(lambda: cache.add(op['k'], v, rto, **kw))
+        got = _norm(lambda: cache.add(op['k'], v, rto, *pa, **kw))
         fk = m.fk(op['k'], ver)
         if m.live(fk, now) is not None:
             return got, ('ok', 'False'), False
@@ -164,11 +169,11 @@ def step(cache, m, op, now, DEFAULT):
         return got, ('ok', 'True'), False
     if name == 'get':
         dflt = op.get('default')
-        got = _norm(lambda: cache.get(op['k'], dflt, **kw))
+        got = _norm(lambda: cache.get(op['k'], dflt, *pa, **kw))
         it = m.live(m.fk(op['k'], ver), now)
         return got, ('ok', it[0] if it else fp(dflt)), False
     if name == 'touch':
-        got = _norm(lambda: cache.touch(op['k'], rto, **kw))
+        got = _norm(lambda: cache.touch(op['k'], rto, *pa, **kw))
         fk = m.fk(op['k'], ver)
         it = m.live(fk, now)
         if it is None:
@@ -176,7 +181,7 @@ def step(cache, m, op, now, DEFAULT):
         it[1] = m.expire_at(to, now)
         return got, ('ok', 'True'), False
     if name == 'delete':
-        got = _norm(lambda: cache.delete(op['k'], **kw))
+        got = _norm(lambda: cache.delete(op['k'], *pa, **kw))
         fk = m.fk(op['k'], ver)
         it = m.live(fk, now)
         if it is None:
@@ -190,7 +195,7 @@ def step(cache, m, op, now, DEFAULT):
         return got, ('ok', None), True
     if name in ('incr', 'decr'):
         delta = op['delta']
-        got = _norm(lambda: getattr(cache, name)(op['k'], delta, **kw))
+        got = _norm(lambda: getattr(cache, name)(op['k'], delta, *pa, **kw))
         fk = m.fk(op['k'], ver)
         it = m.live(fk, now)
         if it is None:
@@ -205,23 +210,23 @@ def step(cache, m, op, now, DEFAULT):
         it[0] = fp(new)
         return got, ('ok', fp(new)), False
     if name == 'has_key':
-        got = _norm(lambda: cache.has_key(op['k'], **kw))
+        got = _norm(lambda: cache.has_key(op['k'], *pa, **kw))
         return got, ('ok', 'True' if m.live(m.fk(op['k'], ver), now) else 'False'), False
     if name == 'in':
         got = _norm(lambda: op['k'] in cache)
         return got, ('ok', 'True' if m.live(m.fk(op['k'], None), now) else 'False'), False
     if name == 'get_many':
-        got = _norm(lambda: sorted((k, fp(v)) for k, v in cache.get_many(op['ks'], **kw).items()))
+        got = _norm(lambda: sorted((k, fp(v)) for k, v in cache.get_many(op['ks'], *pa, **kw).items()))
         want = sorted((k, m.live(m.fk(k, ver), now)[0]) for k in op['ks'] if m.live(m.fk(k, ver), now))
         return got, ('ok', fp(want)), False
     if name == 'set_many':
         items = {k: vals.dec(v) for k, v in op['items']}
-        got = _norm(lambda: cache.set_many(items, rto, **kw))
+        got = _norm(lambda: cache.set_many(items, rto, *pa, **kw))
         for k, v in items.items():
             m.store(m.fk(k, ver), fp(v), to, now)
         return got, ('ok', fp([])), False
     if name == 'delete_many':
-        got = _norm(lambda: cache.delete_many(op['ks'], **kw))
+        got = _norm(lambda: cache.delete_many(op['ks'], *pa, **kw))
         for k in op['ks']:
             m.data.pop(m.fk(k, ver), None)
         return got, ('ok', None), True
@@ -233,7 +238,7 @@ def step(cache, m, op, now, DEFAULT):
             calls.append(1)
             return v
         dflt = make if op.get('callable') else v
-        got = _norm(lambda: cache.get_or_set(op['k'], dflt, rto, **kw))
+        got = _norm(lambda: cache.get_or_set(op['k'], dflt, rto, *pa, **kw))
         fk = m.fk(op['k'], ver)
         it = m.live(fk, now)
         if it is not None:
@@ -245,7 +250,7 @@ def step(cache, m, op, now, DEFAULT):
         return got, ('ok', it[0] if it else fp(v)), False
     if name in ('incr_version', 'decr_version'):
         delta = op['delta']
-        got = _norm(lambda: getattr(cache, name)(op['k'], delta, **kw))
+        got = _norm(lambda: getattr(cache, name)(op['k'], delta, *pa, **kw))
         base = m.version if ver is None else ver
         fk = m.fk(op['k'], base)
         it = m.live(fk, now)
@@ -260,7 +265,7 @@ def step(cache, m, op, now, DEFAULT):
         return got, ('ok', fp(newv)), False
     if name == 'pop':
         dflt = op.get('default')
-        got = _norm(lambda: cache.pop(op['k'], dflt, **kw))
+        got = _norm(lambda: cache.pop(op['k'], dflt, *pa, **kw))
         fk = m.fk(op['k'], ver)
         it = m.live(fk, now)
         if it is None:
